@@ -34,6 +34,11 @@ def wr1(p, res, restrict=None, rule="WR-1"):
             if "forwards to" in v.msg:
                 res.rules[rule]["obligations"] += 1  # inherited from the callee, reported there
                 continue
+            if v.kind == "skip" and _guard_folds_over_operands(f):
+                # the conditional write is guarded by a bound folded over *all* operands of a slice parameter (`a.iter().map(size).min()`): whether the other writes cover
+                # the limbs below it depends on every part's size - outside the lattice
+                res.undec(rule, "%s: conditional limb write guarded by a fold over a slice of operands" % f.pretty)
+                continue
             res.bad(rule, f.pretty, "stale-limb:%s" % v.kind, "%s (overwrite-type operation): %s" % (f.pretty, v.msg), site=f.where(v.line))
         else:
             # a function that addresses the output at one computed limb only (no loop over limbs, no forwarder) leaves the other limbs stale
@@ -44,6 +49,29 @@ def wr1(p, res, restrict=None, rule="WR-1"):
             else:
                 res.undec(rule, "%s: %s" % (f.pretty, v.msg))
     return n_ow, covered
+
+
+def _guard_folds_over_operands(f):
+    """a comparison whose bound comes from Iterator::min / max / fold (through unwrap / unwrap_or)"""
+    flow = Flow(f)
+    for blk in f.blocks:
+        for st in blk["s"]:
+            if st[0] == "A" and st[2]["k"] == "Bin" and st[2]["op"] in ("Ge", "Gt", "Lt", "Le"):
+                for o in st[2]["o"]:
+                    todo = [o]
+                    hops = 0
+                    while todo and hops < 6:
+                        hops += 1
+                        oo = todo.pop()
+                        for r in flow.op_roots(oo):
+                            if r[0] == "call":
+                                t = f.blocks[r[1]]["t"]
+                                d = f.callee_def(t) or {}
+                                if d.get("n") in ("min", "max", "fold", "min_by_key", "max_by_key") and "iter" in d.get("p", "").lower():
+                                    return True
+                                if d.get("n") in ("unwrap_or", "unwrap", "unwrap_or_default", "expect") and t["a"]:
+                                    todo.append(t["a"][0])
+    return False
 
 
 def single_limb_writer(p, f, si):
